@@ -156,6 +156,14 @@ def gen(shard, rng, tier):
             r, s = (limb_value(rng), rng.randrange(1, secp.HALF_N)) if rng.random() < 0.5 else (rng.randrange(1, N), limb_value(rng))
             t = "0x%064x%064x%02x" % (r, s, rng.choice([27, 28]))
             yield from both(lib_case("parse", {"op": "sig.parse", "text": t if rng.random() < 0.7 else t[2:]}, {"cls": "limb-scalars"}))
+        # one non-hex character at the first / last position of each component (where per-component integer parsers are lenient:
+        # a sign, a blank, a digit separator), with and without the prefix
+        for pos in (2, 3, 65, 66, 67, 129, 130, 131):
+            for chx in "+-_ \t.,xXgG\u00e9":
+                t = list(good)
+                t[pos] = chx
+                yield from both(lib_case("parse", {"op": "sig.parse", "text": "".join(t)}, {"cls": "non-hex-at-component-edge"}))
+                yield from both(lib_case("parse", {"op": "sig.parse", "text": "".join(t)[2:]}, {"cls": "non-hex-at-component-edge"}))
         for _ in range(shard["count"]):
             t = list(good)
             k = rng.randrange(7)
